@@ -35,7 +35,10 @@ def generate(rng, tier):
             if r < 0.7:
                 pub = rng.choice(keys)
             else:
-                pub = rng.choice([0, 1, P, P + 1, 2 ** 32 - 1])
+                # invalid publics: the classical ones, and values above p whose residue mod p is an ordinary key (p + 2,
+                # a valid key + p, 2p - 1, 2^31 + x, anything in (p, 2^32))
+                pub = rng.choice([0, 1, P, P + 1, 2 ** 32 - 1, P + 2, P + 5, 2 * P - 1, 2 ** 32 - 3, keys[0] + P, keys[1] + P,
+                                  2 ** 31 + rng.randrange(2, 1000), rng.randrange(P + 2, 2 ** 32 - 2)])
             valid = 1 if rng.random() < 0.6 else 0
             tok = rng.choice([0, 0, 0, 1, 2])
             ev += [gap, pub, tok + (10 if not valid else 0), valid]
